@@ -1,5 +1,9 @@
 import BddVerif.Drive.Tables
 import BddVerif.Gen.OpTables
+import BddVerif.Model.Nested
+-- import BddVerif.Model.Relation   -- re-enabled once the B.RSt name clash with Model/Nested is resolved
+import BddVerif.Model.Substitute
+import BddVerif.Model.Rename
 import Std.Data.HashMap
 /-!
 Driver for C02 (canonical form through any history).
@@ -16,6 +20,15 @@ namespace B.Drive.C02
 open B B.Drive Std
 
 def parseOptVar (s : String) : Option Nat := if s == "-" then none else s.toNat?
+
+def parseVars (s : String) : List Nat :=
+  if s == "~" || s == "" then [] else (s.splitOn ".").filterMap (·.toNat?)
+
+def parseLits (s : String) : List (Nat × Bool) :=
+  if s == "~" || s == "" then [] else (s.splitOn ".").filterMap fun x =>
+    match x.splitOn "=" with
+    | [a, b] => a.toNat?.map fun a => (a, b == "1")
+    | _ => none
 
 /-- the model of one operation; `none` = operation not modelled (yet), `some none` = panic -/
 def modelOp (pool : Array Arr) (f : List String) : Option (Option Arr) :=
@@ -38,6 +51,30 @@ def modelOp (pool : Array Arr) (f : List String) : Option (Option Arr) :=
   | ["ter", t, i, j, k] => some (some (ternaryApply (p i) (p j) (p k) (op3OfTable t) none none none none))
   | ["fused3", t, i, fa, j, fb, k, fc, fo] =>
     some (some (ternaryApply (p i) (p j) (p k) (op3OfTable t) (parseOptVar fa) (parseOptVar fb) (parseOptVar fc) (parseOptVar fo)))
+  | ["exists", i, vs] => some (some (bddExists (p i) (parseVars vs)))
+  | ["forall", i, vs] => some (some (bddForAll (p i) (parseVars vs)))
+  --REL | ["varexists", i, x] => some ((Rel.varExistsO (p i) (x.toNat?.getD 0)).toOption)
+  --REL | ["varforall", i, x] => some ((Rel.varForAllO (p i) (x.toNat?.getD 0)).toOption)
+  | ["bexists", t, i, j, vs] => some (some (binaryOpWithExists (p i) (p j) (op2OfTable t) (parseVars vs)))
+  | ["bforall", t, i, j, vs] => some (some (binaryOpWithForAll (p i) (p j) (op2OfTable t) (parseVars vs)))
+  | ["nested", t, i, j, mask, inner] =>
+    let m := mask.toNat?.getD 0
+    some (some (nestedApply (p i) (p j) (fun v => (m >>> v) % 2 == 1) (op2OfTable t)
+      (if inner == "or" then Gen.or_ else Gen.and_)))
+  --REL | ["select", i, ls] => some (some (select (p i) (parseLits ls)))
+  --REL | ["restrict", i, ls] => some (some (restrict (p i) (parseLits ls)))
+  --REL | ["varselect", i, x, b] => some (some (varSelect (p i) (x.toNat?.getD 0) (b == "1")))
+  --REL | ["varrestrict", i, x, b] => some (some (varRestrict (p i) (x.toNat?.getD 0) (b == "1")))
+  --REL | ["pick", i, vs] => some ((pickO (p i) (parseVars vs)).toOption)
+  --REL | ["varpick", i, x] => some ((varPickO (p i) (x.toNat?.getD 0)).toOption)
+  --REL | ["pickrandom", i, vs, fl] => some ((pickRandomO (p i) (parseVars vs) (parseBits fl)).toOption)
+  | ["substitute", i, x, j] => some ((Ren.Subst.substitute (p i) (x.toNat?.getD 0) (p j)).toOption)
+  | ["renamevar", i, o, nw] => some ((Ren.renameVariable (p i) (o.toNat?.getD 0) (nw.toNat?.getD 0)).toOption)
+  --REL | ["mkvar", x] => some (some (mkVar (numVars (pool.getD 0 #[])) (x.toNat?.getD 0)))
+  --REL | ["mknotvar", x] => some (some (mkNotVar (numVars (pool.getD 0 #[])) (x.toNat?.getD 0)))
+  | ["mktrue"] => some (some (mkTrue (numVars (pool.getD 0 #[]))))
+  | ["mkfalse"] => some (some (mkFalse (numVars (pool.getD 0 #[]))))
+  --REL | ["clause", ls] => some (some (mkPartialValuation (numVars (pool.getD 0 #[])) (fromValues (parseLits ls))))
   | _ => none
 
 structure Acc where
